@@ -506,7 +506,7 @@ func vRunConnScenario(sc *vScenario) (out []vOutEvent, info map[string]interface
 	taskN := 0
 	runner.RunTask = func(ctx context.Context, f func()) {
 		taskN++
-		name := fmt.Sprintf("task%d", taskN)
+		name := fmt.Sprintf("task%d", (taskN-1)%20+1) // (the observable spec knows twenty task names; tasks are short-lived)
 		s.Go(name, func() {
 			defer func() {
 				if x := recover(); x != nil {
@@ -623,12 +623,18 @@ func vRunConnScenario(sc *vScenario) (out []vOutEvent, info map[string]interface
 		if sc.Peer[pi][0].(string) == "drain" && r.peerPending() <= 0 {
 			return false
 		}
+		// a peer that sends its next message only once the previous one has been taken off the socket
+		if sc.Peer[pi][0].(string) == "sendsync" {
+			if n, err := vIoctlInt(c.fd, syscall.TIOCINQ); err != nil || n > 0 {
+				return false
+			}
+		}
 		return true
 	}, func() {
 		op := sc.Peer[pi]
 		pi++
 		switch op[0].(string) {
-		case "send":
+		case "send", "sendsync":
 			n := int(op[1].(float64))
 			buf := make([]byte, n)
 			for i := range buf {
@@ -729,8 +735,9 @@ func vRunConnScenario(sc *vScenario) (out []vOutEvent, info map[string]interface
 			if !mid {
 				return false
 			}
-			// only with a backlog above one booking already buffered (that is when a lost booking matters)
-			if r.inLen() <= 4096 {
+			// only when the node being filled has room beyond one booking (that is when a lost booking matters):
+			// a backlog larger than bookSize has been buffered in reads that never filled a whole booking
+			if w := c.inputBuffer.write; w == nil || cap(w.buf)-w.malloc <= c.bookSize {
 				return false
 			}
 			n, err := vIoctlInt(c.fd, syscall.TIOCINQ)
